@@ -8,12 +8,12 @@ from c03 import _Filter
 # property -> list of (module, rules)
 RELATED = {
     "C01": [("c06", ["R06.1"]), ("c11", ["R11.2"]), ("c12", ["R12.2"])],
-    "C02": [("c12", ["R12.1", "R12.2", "R12.4", "R12.7", "R12.8"]), ("c08", ["R08.4"]), ("c11", ["R11.1", "R11.2"]), ("c09", ["R09.1", "R09.2"]), ("c08", ["R08.6"]),
+    "C02": [("c12", ["R12.1", "R12.2", "R12.4", "R12.7", "R12.8"]), ("c08", ["R08.4"]), ("c11", ["R11.1", "R11.2", "R11.7"]), ("c09", ["R09.1", "R09.2"]), ("c08", ["R08.6"]),
             ("lints", ["L.partial-write", "L.partial-read", "L.try-send"])],
     "C03": [("c08", ["R08.1", "R08.2", "R08.3"]), ("c09", ["R09.1", "R09.2", "R09.3", "R09.5"]), ("c11", ["R11.2"]), ("c12", ["R12.1", "R12.4", "R12.7"]),
             ("c04", ["R04.4", "R04.6", "R04.8", "R04.9"]), ("lints", ["L.partial-write", "L.partial-read", "L.try-send", "L.file-create-truncate"])],
     "C04": [("c08", ["R08.7"]), ("c03", ["R03.4"]), ("lints", ["L.partial-write", "L.try-send"])],
-    "C05": [("c10", ["R10.1", "R10.2", "R10.3", "R10.4", "R10.6"]), ("c09", ["R09.3", "R09.4", "R09.5"]), ("c12", ["R12.6", "R12.7", "R12.8"]), ("c08", ["R08.4"]),
+    "C05": [("c10", ["R10.1", "R10.2", "R10.3", "R10.4", "R10.6"]), ("c09", ["R09.3", "R09.4", "R09.5"]), ("c12", ["R12.6", "R12.7", "R12.8"]), ("c08", ["R08.4"]), ("c11", ["R11.7"]),
             ("lints", ["L.partial-read", "L.process-exit"])],
     "C06": [("c15", ["R15.1"]), ("c01", ["R01.4"])],
     "C07": [("c11", ["R11.2"]), ("c01", ["R01.2", "R01.5"]), ("c02", ["R02.3"]), ("c12", ["R12.2", "R12.7"]), ("c03", ["R03.4"]),
